@@ -227,3 +227,87 @@ func runMatcher(line string, f []string) core.Outcome {
 	}
 	return o
 }
+
+// ---------------------------------------------------------------- two requests, same handler instances
+
+func genHTTP2(rng *core.Rand, emit func(string)) {
+	mk := func(max int) string {
+		var sb strings.Builder
+		for j := 1 + rng.Intn(max); j > 0; j-- {
+			sb.WriteString(rng.Pick(tmplPieces))
+		}
+		return sb.String()
+	}
+	av := attackerValues()
+	body := mk(3) + "{http.vars.v}" + mk(2)
+	kind := rng.Pick([]string{"s", "l", "l"})
+	vart := rng.Pick([]string{"{http.request.uri.query.q}", "{http.request.header.X-In}", mk(3)})
+	emit(fmt.Sprintf("http2 %s %s %s %s %s %s %s %s", core.Hex(body), kind, core.Hex(vart),
+		core.Hex(rng.Pick(av)), core.Hex(rng.Pick(av)), core.Hex(rng.Pick(av)), core.Hex(rng.Pick(av)), core.Hex("S3CR3T-ENV-9942")))
+}
+
+func runHTTP2(line string, f []string) core.Outcome {
+	kind := f[2]
+	var v [7]string
+	for i, idx := range []int{1, 3, 4, 5, 6, 7, 8} {
+		s, err := core.UnHex(f[idx])
+		if err != nil {
+			return core.Outcome{Impl: "bad-op"}
+		}
+		v[i] = s
+	}
+	if kind != "s" && kind != "l" {
+		return core.Outcome{Impl: "bad-op"}
+	}
+	bodyT, varT, secret := v[0], v[1], v[6]
+	reqs := [][2]string{{v[2], v[3]}, {v[4], v[5]}}
+	os.Setenv(secretEnv, secret)
+	defer os.Unsetenv(secretEnv)
+
+	mkHandlers := func() (caddyhttp.VarsMiddleware, caddyhttp.StaticResponse) {
+		var val any = varT
+		if kind == "l" {
+			val = []any{"static", varT} // what JSON decoding of a list-valued variable yields
+		}
+		return caddyhttp.VarsMiddleware{"v": val}, caddyhttp.StaticResponse{Body: bodyT}
+	}
+	serve := func(vars caddyhttp.VarsMiddleware, resp caddyhttp.StaticResponse, xin, q string) (string, error) {
+		req := httptest.NewRequest("GET", "http://example.test/", nil)
+		req.URL.RawQuery = "q=" + url.QueryEscape(q)
+		req.Header["X-In"] = []string{xin}
+		ctx := context.WithValue(req.Context(), caddyhttp.VarsCtxKey, map[string]any{})
+		req = req.WithContext(ctx)
+		caddyhttp.NewTestReplacer(req)
+		rec := httptest.NewRecorder()
+		err := vars.ServeHTTP(rec, req, caddyhttp.HandlerFunc(func(w http.ResponseWriter, r *http.Request) error {
+			return resp.ServeHTTP(w, r, nextNop{})
+		}))
+		return rec.Body.String(), err
+	}
+	vars, resp := mkHandlers()
+	var outs []string
+	for _, rq := range reqs {
+		b, err := serve(vars, resp, rq[0], rq[1])
+		if err != nil {
+			return core.Outcome{Impl: "err:handler"}
+		}
+		outs = append(outs, b)
+	}
+	o := core.Outcome{Impl: "ok " + core.Hex(outs[0]) + " " + core.Hex(outs[1]), Tags: []string{"op:http2", "varkind:" + kind}}
+	// oracle 1: history independence — request 2 on the used handlers = request 2 on fresh handlers
+	fv, fr := mkHandlers()
+	fresh, _ := serve(fv, fr, reqs[1][0], reqs[1][1])
+	if fresh != outs[1] {
+		o.Failures = append(o.Failures, core.Failure{Class: "response-depends-on-earlier-request",
+			What: fmt.Sprintf("second request rendered %q on handlers that served %q before, but %q on fresh handlers: text substituted for request 1 is being expanded for request 2", outs[1], reqs[0], fresh)})
+	}
+	// oracle 2: secret only if a template names it
+	for _, b := range outs {
+		if strings.Contains(b, secret) && !strings.Contains(bodyT+"\x00"+varT, "env."+secretEnv) {
+			o.Failures = append(o.Failures, core.Failure{Class: "env-secret-leaked-via-request-value",
+				What: fmt.Sprintf("response %q contains the value of $%s although no template names it", b, secretEnv)})
+			break
+		}
+	}
+	return o
+}
